@@ -44,7 +44,10 @@ def main():
     finally:
         subprocess.run(["git", "-C", "/repo", "checkout", "--", "."])
         # put the shared Extracted.lean back to the unchanged tree's values
-        subprocess.run([sys.executable, "-c", "import sys; sys.path.insert(0, '%s/tools'); import extract, translate; open('%s/lean/Momo/Extracted.lean','w').write(extract.generate('/repo')[0]); open('%s/lean/Momo/Translated.lean','w').write(translate.generate('/repo')[0])" % (VERIF, VERIF, VERIF)])
+        subprocess.run([sys.executable, "-c",
+                        "import sys, os; sys.path.insert(0, '%s/tools'); import extract, translate; L='%s/lean/Momo/'; "
+                        "open(L+'Extracted.lean','w').write(extract.generate('/repo')[0]); "
+                        "[(os.makedirs(os.path.dirname(L+r), exist_ok=True), open(L+r,'w').write(t)) for r, t in translate.generate_all('/repo')[0].items()]" % (VERIF, VERIF)])
     meta["check_results"] = results
     json.dump(meta, open(meta_path, "w"), indent=1)
     return 0
